@@ -153,6 +153,13 @@ def histories(r, tier):
             for _, o in seq:
                 ops += o
             yield [l for l, _ in seq], ops + look + [Op(82)], len(pre)
+    # renames interleaved with add / delete of the renamed tables, exhaustively one level deeper
+    focus = [a for a in core if a[0] in ('add(tA)', 'delete(tA)', 'tA.name=renamed', 'add(tG)', 'delete(tG)', 'tG.name=renamed2', 'add(tB)')]
+    for seq in itertools.product(focus, repeat=depth + 1):
+        ops = list(pre)
+        for _, o in seq:
+            ops += o
+        yield [l for l, _ in seq], ops + look + [Op(82)], len(pre)
     # the table-level sub-language, exhaustively (twins, positions, foreign columns)
     tl = [a for a in ext if a[0].startswith(('tA.add_', 'tA.delete_', 'tE.add_'))]
     tdepth = 3 if tier == 'quick' else 4
